@@ -6,6 +6,11 @@ Open Scope list_scope.
 Theorem discipline_ok : check_table lock_table = true.
 Proof. vm_compute. reflexivity. Qed.
 
+(* no method of a registered driver or of the sniffer writes its receiver (the table is regenerated
+   from the sources on every run; a method that starts to do so makes this proof fail) *)
+Theorem drivers_stateless_ok : receiver_writes = [].
+Proof. reflexivity. Qed.
+
 (* what a passing table guarantees, for any table: any two accesses of thread programs to the same
    variable, one of them a write, are both atomic operations of a sync type or are made under a
    common mutex that at least one of them holds exclusively; and nothing is published *)
